@@ -23,6 +23,11 @@ namespace net
         ids.push_back(id);
         items.push_back(pool[id]);
       }
+      else if (op.arg(7) & 1)
+      { // the domain is given as a list: the same value may be listed twice (a union of enums reaching one enum twice does that)
+        items.push_back(pool[id]);
+        cnt.inc("ovar.duplicate_value_listed");
+      }
     }
     ++epoch;
     smt::var v = ov->new_var(items, enforce);
